@@ -242,7 +242,7 @@ def evaluate(case, verbose=False):
         B = reading(bsite)
         A = reading(asite)
         index_of = index_fn(acall)
-        exp = MD.predict(case, B, index_of)
+        exp = MD.predict(case, B, index_of, label)
         if exp.fatal == 'M':
             viol.append(('fatal-missing', '%s: an annotation references a parameter that does not exist but the '
                          'scan did not fail' % label))
